@@ -25,7 +25,7 @@ COMPONENTS = {"real": ["ECAgent.Core._MetaAgent (per-class _components / _tag, a
 PROBES = ["explicit_tag_zero_with_nonzero_default", "tag_set_on_Agent_itself", "class_component_on_environment_class",
           "reject_duplicate_attach", "reject_detach_absent", "instance_component_attached", "subclass_instantiated_after_tag",
           "parent_instantiated_after_child_tag", "child_instantiated_after_parent_tag", "depth_3_chain", "sibling_isolation_checked", "class_created_mid_history", "class_cloned_from_namespace",
-          "shared_namespace_dict", "model_lifecycle_op"]
+          "shared_namespace_dict", "model_lifecycle_op", "many_classes"]
 TECHNIQUE = "deterministic simulation: seeded class-level attach/detach/tag histories over generated hierarchies, pristine forked process per history, per-class reference"
 LEVEL_TEXT = ("Seeded search over class hierarchies and class-level histories; after every operation, for every class in the "
               "hierarchy including Agent and Environment, class components, length, membership and default tag must equal a "
@@ -94,7 +94,8 @@ def generate(rng, tier):
             ops.append({"op": "lifecycle", "c": c, "what": rng.choice(["complete", "step"])})
         else:
             ops.append({"op": "observe"})
-    return {"classes": classes, "ops": ops}
+    many = rng.choice([140, 180, 260]) if rng.random() < (0.04 if tier == "thorough" else 0.015) else 0
+    return {"classes": classes, "ops": ops, "many": many}
 
 
 def execute(sc, ctx):
@@ -115,6 +116,16 @@ def execute(sc, ctx):
                       base if base in BASES else "Agent"))
     if any(c.get("ns") == "shared" for c in sc["classes"]):
         ctx.probe("shared_namespace_dict")
+    crowd = []
+    for j in range(min(int(sc.get("many") or 0), 400)):
+        # many more agent classes, each with its own class component and default tag, all touched before the history starts
+        k_ = type(f"Crowd{j}", (Agent,), {})
+        comp_ = PT[j % 3](k_, m)
+        k_.add_class_component(comp_)
+        k_.tag = 1 + j % 5
+        crowd.append((k_, comp_, 1 + j % 5))
+    if crowd:
+        ctx.probe("many_classes")
     idx_agent, idx_env = len(built), len(built) + 1
     built.append((Agent, None, "Agent"))
     built.append((Environment, None, "Environment"))
@@ -160,6 +171,9 @@ def execute(sc, ctx):
             ctx.check(cls.has_class_component(*list(ref)) is True, "class-component-membership", f"{where}: all-of")
             ctx.check(cls.tag == tags[i], "default-tag-visibility",
                       lambda: f"{where}: {cls.__name__}.tag = {cls.tag!r}, reference {tags[i]!r} (a default tag leaked between classes)")
+        for k_, comp_, tag_ in crowd:
+            ctx.check(len(k_) == 1 and k_[type(comp_)] is comp_ and k_.tag == tag_, "class-component-visibility",
+                      lambda: f"{where}: {k_.__name__} lost its class component or default tag (many classes alive)")
         if has_sibling:
             ctx.probe("sibling_isolation_checked")
 
